@@ -169,6 +169,7 @@ class Opts:
         self.wrapper_odds = 5         # 1 in (n+1) list elements gets a wrapper
         self.json_safe = False        # keep the dictionary image unambiguous (C04): see json_kinds()
         self.nesting = True           # inner classes / nested enums
+        self.anon_container = False   # single wildcards may hold the anonymous container of several elements (C01)
         self.hostile_text = False     # strings over all of Unicode, incl. code points XML 1.0 cannot carry (C03)
         self.mixin_enums = False      # class E(str, Enum) / IntEnum style enumerations (C18 only)
         self.unrepresentable = False  # values XML/JSON cannot tell from "use the default" (C18 only): [] against a
@@ -1151,6 +1152,7 @@ def any_element(draw, depth=0, top=None):
 
 
 UNREPRESENTABLE = contextvars.ContextVar("unrepresentable", default=False)
+ANON_CONTAINER = contextvars.ContextVar("anon_container", default=False)
 
 
 def instance_of(draw, spec, cid, cr=False, parent_ns=None):
@@ -1239,6 +1241,10 @@ def instance_of(draw, spec, cid, cr=False, parent_ns=None):
                 kw[py] = _seq(frozen, items)
             elif f["card"] == "list":
                 kw[py] = _seq(frozen, [_strip_tail(any_element(draw, 0, top)) for _ in range(draw(st.integers(0, 3)))])
+            elif ANON_CONTAINER.get() and draw(st.integers(0, 3)) == 0:
+                # what the parser builds when a single wildcard receives several elements: an anonymous container
+                kids = [_strip_tail(any_element(draw, 0, top)) for _ in range(draw(st.integers(2, 3)))]
+                kw[py] = {"obj": "AnyElement", "kw": {"qname": None, "text": None, "tail": None, "children": kids, "attributes": {"map": []}}}
             else:
                 kw[py] = None if draw(st.booleans()) else _strip_tail(any_element(draw, 0, top))
     return {"obj": cid, "kw": kw}
@@ -1271,11 +1277,13 @@ def model_and_instance(draw, opts=None):
     spec = draw(model_specs(o))
     tok = UNREPRESENTABLE.set(o.unrepresentable)
     tok2 = HOSTILE.set(o.hostile_text)
+    tok3 = ANON_CONTAINER.set(o.anon_container)
     try:
         inst = instance_of(draw, spec, spec["root"], o.cr, None)
     finally:
         UNREPRESENTABLE.reset(tok)
         HOSTILE.reset(tok2)
+        ANON_CONTAINER.reset(tok3)
     return {"spec": spec, "inst": inst}
 
 
